@@ -481,9 +481,26 @@ class Walker:
         fail("assignment target " + t.__name__, tg)
 
     # ---- statements
+    def ends_with_return(self, stmts):
+        if not stmts:
+            return False
+        last = stmts[-1]
+        if isinstance(last, ast.Return):
+            return True
+        if isinstance(last, ast.If) and last.orelse:
+            return self.ends_with_return(last.body) and self.ends_with_return(last.orelse)
+        return False
+
     def block(self, stmts, top=False):
         es = []
         for i, s in enumerate(stmts):
+            rest = stmts[i + 1:]
+            # if c: ...; return x      is       if c: ...; return x
+            # rest                              else: rest
+            if isinstance(s, ast.If) and rest and self.ends_with_return(s.body) and self.flag_test(s.test) is None:
+                a = self.block(s.body, top=top)
+                b = self.block(s.orelse + rest, top=top)
+                return es + self.expr(s.test) + ([f"Branch {evn(a)} {evn(b)}"] if a or b else [])
             es += self.stmt(s, tail=top and i == len(stmts) - 1)
         return es
 
@@ -547,7 +564,7 @@ class Walker:
         if t is ast.If:
             es = self.expr(s.test)
             ft = self.flag_test(s.test)
-            a, b = self.block(s.body), self.block(s.orelse)
+            a, b = self.block(s.body, top=tail), self.block(s.orelse, top=tail)
             if ft is not None:
                 p, v = ft
                 out = []
